@@ -70,8 +70,8 @@ def run(R):
     def build_odd(ab):
         o = E.Opts(mul_uf=True, div_uf=(SDIV, SREM), div_uf_all=True) if ab else E.Opts()
         c1, c2 = R.call(h, "atan", [a], opts=o), R.call(h, "atan", [-a], opts=o)
-        return Ob("atan/odd", "verify", [a], [c1, c2], z3.And(a != val(INT64_MIN), a != 0), c2.out == -c1.out,
-                  abstract=ab, comm_lemmas=False, note="atan(-x) == -atan(x) exactly for every x")
+        return Ob("atan/odd", "verify", [a], [c1, c2], z3.And(a < val(LIM), a > val(-LIM), a != 0), c2.out == -c1.out,
+                  abstract=ab, comm_lemmas=False, note="atan(-x) == -atan(x) exactly for every |x| < 2^31")
     ob = build_odd(True)
     ob.fallback = lambda: build_odd(False)
     R._add(ob)
@@ -244,9 +244,13 @@ def monotone_and_atan2(R, h, hk, oi, kstub_factory, PIDIV2, kp, dp):
              c.out == z3.If(y > 0, val(PIDIV2), val(-PIDIV2)), note="x == 0: exactly +-fixpidiv2 by the sign of y")
     R.verify("atan2/y-zero", [y, x], [c], z3.And(D, y == 0, x != 0), c.out == z3.If(x > 0, val(0), val(PHI)),
              note="y == 0: 0 for x > 0, phi for x < 0")
-    R.verify("atan2/sign", [y, x], [c], z3.And(D, z3.Or(x != 0, y != 0)),
+    # directions steeper than 2^31 (|y/x| >= 2^31) take atan outside its own stated domain; they are decided end to end
+    # below (atan2/steep).  The contract-based obligations cover |y|*2^16 < 2^47*|x|.
+    Wn = 130
+    steep = zx(sabs(y), Wn) << 16 >= (zx(sabs(x), Wn) << 47)
+    R.verify("atan2/sign", [y, x], [c], z3.And(D, z3.Or(x != 0, y != 0), z3.Not(steep)),
              z3.And(z3.Implies(y > 0, c.out >= 0), z3.Implies(y < 0, c.out <= 0), z3.Not(isnan_raw(c.out))),
-             note="never negative for y > 0, never positive for y < 0, never NaN away from the origin")
+             note="never negative for y > 0, never positive for y < 0, never NaN away from the origin (|y/x| < 2^31)")
     # structure: result = atan(q) [+ phi | - phi] with q the truncated quotient y/x:  |q*x - y*2^16| < |x|
     Wd = 128
     prod = E.mulw(Wd)(z3.simplify(sx(qsel, Wd)), z3.simplify(sx(x, Wd)))
@@ -256,9 +260,43 @@ def monotone_and_atan2(R, h, hk, oi, kstub_factory, PIDIV2, kp, dp):
     shape = z3.Or(z3.And(x > 0, c.out == ATANF(qsel)),
                   z3.And(x < 0, y >= 0, c.out == ATANF(qsel) + val(PHI)),
                   z3.And(x < 0, y < 0, c.out == ATANF(qsel) - val(PHI)))
-    R.verify("atan2/is-atan-of-quotient", [y, x], [c], z3.And(D, x != 0), z3.And(shape, err < absx, err > -absx),
-             also_ub=True, portfolio=("z3", "cvc5"),
-             note="x != 0: atan2(y,x) = atan(q) (+ phi for x<0<=y, - phi for x<0, y<0) with q within one ulp of y/x, no UB")
+    R.verify("atan2/is-atan-of-quotient", [y, x], [c], z3.And(D, x != 0, z3.Not(steep)),
+             z3.And(shape, err < absx, err > -absx, qsel < val(LIM), qsel > val(-LIM)),
+             also_ub=True, portfolio=("z3", "cvc5"), magnitude=True,
+             note="x != 0, |y/x| < 2^31: atan2(y,x) = atan(q) (+ phi for x<0<=y, - phi for x<0, y<0) with q within one ulp of "
+                  "y/x and inside atan's verified domain, no UB")
+    # steep directions, end to end (INT encoding of atan2 with the series kernel replaced by its contract)
+    yi, xi2 = z3.Int("y"), z3.Int("x")
+    hs = R.harness("atan2k", [UNITS[2]], noinline=[KSYM])
+
+    def kstub2(ctx, args):
+        z = args[0].t
+        r = ATANK(z)
+        # consequences of Lemma B: 0 <= kernel(z) <= KMAX and kernel(z) <= z + 1 on [0, ZMAX]
+        ctx.assume(z3.Implies(z3.And(z >= 0, z <= ZMAX), z3.And(r >= 0, r <= KMAX, r <= z + 1)))
+        return E.IV(r, 64)
+    cs = R.call(hs, "atan2", [yi, xi2], opts=E.Opts(int_mode=True, stubs={KSYM: kstub2}))
+    absy = z3.If(yi < 0, -yi, yi)
+    absx2 = z3.If(xi2 < 0, -xi2, xi2)
+    Ds = z3.And(yi > -LIM, yi < LIM, xi2 > -LIM, xi2 < LIM, xi2 != 0, absy * 65536 >= absx2 * (1 << 47))
+    half = mp.pi / 2 * 65536
+    tol2 = mp.mpf("8e-5") * 65536
+    lo2, hi2 = int(mp.ceil(half - tol2 + mp.mpf("0.01"))), int(mp.floor(half + tol2 - mp.mpf("0.01")))
+    R.verify("atan2/steep", [yi, xi2], [cs], Ds,
+             z3.If(yi > 0, z3.And(cs.out >= lo2, cs.out <= hi2), z3.And(cs.out <= -lo2, cs.out >= -hi2)),
+             also_ub=True, portfolio=("z3", "cvc5"), timeout=300,
+             note="|y/x| >= 2^31 (true angle within 5e-10 of +-pi/2): atan2 within 8e-5 of it, right sign, no UB")
+    # the same obligation with the divisor fixed to a small constant (division by a constant is linear): cheap, and it is what
+    # finds a counterexample quickly when the general query above is too hard to refute
+    for xc in (1, -1, 2, -2, 3, -3, 7, -7):
+        cc = R.call(hs, "atan2", [yi, z3.IntVal(xc)], opts=E.Opts(int_mode=True, stubs={KSYM: kstub2}))
+        Dc = z3.And(yi > -LIM, yi < LIM, absy * 65536 >= abs(xc) * (1 << 47))
+        R.verify("atan2/steep/x=%d" % xc, [yi], [cc], Dc,
+                 z3.If(yi > 0, z3.And(cc.out >= lo2, cc.out <= hi2), z3.And(cc.out <= -lo2, cc.out >= -hi2)),
+                 also_ub=True, portfolio=("z3", "cvc5"), timeout=120,
+                 note="steep directions with raw x = %d: within 8e-5 of +-pi/2, right sign, no UB" % xc)
+    R.witness("atan2/steep-reach", [yi, xi2], [cs], z3.And(Ds, xi2 == -3, yi == -(1 << 40)), cs.out < 0,
+              portfolio=("z3", "cvc5"))
     bud = TOL + 1 + abs(PHI - mp.pi * 65536)
     R.extra_cov["atan2_error_budget_ulp"] = {"total": mp.nstr(bud, 6), "allowed": mp.nstr(mp.mpf("8e-5") * 65536, 6)}
     R.verify("atan2/error-budget", [], [], z3.BoolVal(True), z3.BoolVal(bool(bud <= mp.mpf("8e-5") * 65536)),
